@@ -457,7 +457,13 @@ def gen_module(rng, mode: str) -> tuple[dict, str]:
             f = rng.choice(["scalar", "pair", "one", "zero-lo"])
             if f == "scalar":
                 info["aspect_ratio"] = rng.choice([2, 3, 0.5, 0.25, 4.0, 1, True, 8] if mode == "Q"
-                                                  else [2, 3, 0.5, 0.3, 1.7, 1, True, 2.5, 7])
+                                                  else [2, 3, 0.5, 0.3, 1.7, 1, True, 2.5, 7,
+                                                        # arbitrary doubles: 1/(1/r) need not be r
+                                                        rng.uniform(0.05, 1.0), rng.uniform(0.05, 1.0),
+                                                        rng.uniform(1.0, 20.0), rng.randint(1, 99) / 100])
+            elif f == "pair" and mode == "F" and rng.random() < 0.4:
+                lo = rng.uniform(0.05, 1.0)     # a symmetric interval [r, 1/r] written out in full
+                info["aspect_ratio"] = [lo, 1 / lo]
             elif f == "pair":
                 info["aspect_ratio"] = [rng.choice([0.5, 0.25, 1, 1.0, 0.125] if mode == "Q" else [0.5, 0.3, 1, 1 / 3]),
                                         rng.choice([1, 2, 4.0, 1.5] if mode == "Q" else [1, 2, 3.3, 1.1])]
